@@ -25,7 +25,7 @@ BLOCK_WORDS = {
 # expression/regex/list/binding (excluded by C01/C03's quantifier in expression-capable slots),
 # n = non-ASCII
 STR_POOL = [
-    ("roads", ""), ("Main St 5", ""), ("a#b is not a comment", ""), ("END", ""), ("LAYER", ""),
+    ("roads", ""), ("Layer_1", ""), ("a-b:c", ""), ("\u00c4pfel", "n"), ("Main St 5", ""), ("a#b is not a comment", ""), ("END", ""), ("LAYER", ""),
     ("x;y,z", ""), ("\u00fcn\u00efc\u00f6d\u00e9 \u00c5", "n"), ("\u65e5\u672c\u8a9e", "n"),
     ("\U0001d518ni\U0001f600", "n"), ("c:\\data\\x.shp", ""), ("two  spaces", ""), ("it's", "s"),
     ('say "hi"', "q"), ("multi\nline", "m"), ("100%", ""), ("a/b/c.tif", ""), ("-12.5e3x", ""),
@@ -89,7 +89,7 @@ class Tok:
 
 
 class Concretiser:
-    def __init__(self, seed=0, lookalikes=False, ascii_only=False, no_multiline=False, avoid_quote=None):
+    def __init__(self, seed=0, lookalikes=False, ascii_only=False, no_multiline=False, avoid_quote=None, bare_strings=False):
         self.rng = random.Random(seed)
         r = self.rng
 
@@ -98,6 +98,8 @@ class Concretiser:
             r.shuffle(p)
             return p
         sp = list(STR_POOL)
+        if bare_strings:      # only contents that may also be written as an unquoted bare word
+            sp = [("roads", ""), ("Layer_1", ""), ("a-b:c", ""), ("\u00c4pfel", "n"), ("circle", ""), ("my_font", ""), ("x1", "")]
         if ascii_only:
             sp = [x for x in sp if "n" not in x[1]]
         if no_multiline:
